@@ -31,14 +31,24 @@ theorem c12_released {s : St} (h : Reach lts init s) {r : RRet} (hr : s.run = .r
 
 /-- **Running means serving** (C12) — in every interleaving: while `Run` waits in its `select`, no reload is past its
 decision to restart, and the state is not Error, the current instance is listening. -/
-theorem c12_running_serving {s : St} (h : Reach lts init s) (hrun : s.run = .select) (hrl : s.rl = .idle ∨ s.rl = .entered)
-    (hf : s.fsm ≠ .error) : listening s = true :=
+theorem c12_running_serving {s : St} (h : Reach lts init s) (hrun : s.run = .select)
+    (hrl : s.rl = .idle ∨ s.rl = .entered ∨ ∃ r b, s.rl = .cbReturned r b) (hf : s.fsm ≠ .error) : listening s = true :=
   (inv_reach h).serving (Or.inr hrun) hrl hf
 
 /-- **An equivalent configuration leaves the live server untouched** (C13): the reload ends without touching the
 instance, the guard or the instance table. -/
 theorem c13_same_untouched (s : St) (c c0 : Nat) (hrl : s.rl = .entered) (hcfg : s.cfg = some c0) :
-    ∃ s', step s (.rlConfig (.ok c) true) = some s' ∧ s'.srv = s.srv ∧ s'.insts = s.insts ∧ s'.onceUsed = s.onceUsed
+    ∃ s1 s', step s (.rlConfig (.ok c) true) = some s1 ∧ s1 = { s with rl := .cbReturned (.ok c) true }
+      ∧ step s1 .rlAfterCb = some s' ∧ s'.srv = s.srv ∧ s'.insts = s.insts ∧ s'.onceUsed = s.onceUsed
+      ∧ s'.cfg = s.cfg ∧ s'.rl = .idle := by
+  refine ⟨_, { s with fsm := (tr { s with rl := .cbReturned (.ok c) true } .running).getD .error, rl := .idle, mu := none,
+                      reloads := s.reloads + 1 }, ?_, rfl, ?_, rfl, rfl, rfl, rfl, rfl⟩
+  · simp [step, hrl]
+  · simp [step, hcfg]
+
+/-- the same at whatever moment `reloadConfig` gets to act on the callback's answer (`Run` may have moved meanwhile) -/
+theorem c13_same_untouched_later (s : St) (c c0 : Nat) (hrl : s.rl = .cbReturned (.ok c) true) (hcfg : s.cfg = some c0) :
+    ∃ s', step s .rlAfterCb = some s' ∧ s'.srv = s.srv ∧ s'.insts = s.insts ∧ s'.onceUsed = s.onceUsed
       ∧ s'.cfg = s.cfg ∧ s'.rl = .idle := by
   refine ⟨{ s with fsm := (tr s .running).getD .error, rl := .idle, mu := none, reloads := s.reloads + 1 }, ?_, rfl, rfl, rfl, rfl, rfl⟩
   simp [step, hrl, hcfg]
@@ -59,7 +69,7 @@ theorem c13_changed_fresh (s : St) (inTime : Bool) (hrl : s.rl = .stopOld) (hok 
 has been shut down (the reload put the state back to Running after `Run` had failed to move it to Stopping) -/
 def f1Schedule : List Act :=
   [.runEnter, .runBootBegin (.ok 0) true, .instBind 0, .runProbeOk, .runToRunning,
-   .reloadCall, .rlEnter, .stopCall, .runSelStop, .runToStopping, .rlConfig (.ok 0) true, .runStopServer true]
+   .reloadCall, .rlEnter, .stopCall, .runSelStop, .runToStopping, .rlConfig (.ok 0) true, .rlAfterCb, .runStopServer true]
 
 theorem c12_f1_reachable : ∃ s, Reach lts init s ∧ s.fsm = .running ∧ s.rl = .idle ∧ s.run = .stopped false
     ∧ s.insts = [.closed] := by
@@ -73,7 +83,7 @@ theorem c12_f1_reachable : ∃ s, Reach lts init s ∧ s.fsm = .running ∧ s.rl
 stop with the drain in time: `Run()` returns nil, nothing is open, two instances existed -/
 example : ∃ s, run lts init
       [.runEnter, .runBootBegin (.ok 0) true, .instBind 0, .runProbeOk, .runToRunning,
-       .reloadCall, .rlEnter, .rlConfig (.ok 1) false, .rlStopOld true, .rlBootBegin true, .instBind 1, .rlProbeOk,
+       .reloadCall, .rlEnter, .rlConfig (.ok 1) false, .rlAfterCb, .rlStopOld true, .rlBootBegin true, .instBind 1, .rlProbeOk,
        .stopCall, .runSelStop, .runToStopping, .runStopServer true, .runFinish] = some s
     ∧ s.run = .returned .nil ∧ s.fsm = .stopped ∧ s.insts = [.closed, .closed] ∧ s.reloads = 1 := by
   refine ⟨_, rfl, ?_⟩
@@ -89,7 +99,7 @@ open GoSup.CompSeq (Fsm)
 returns, a drain that ends, a probe that gives up) -/
 def progressActs : List Act :=
   [.runEnter, .runBootBegin (.ok 0) true, .runProbeFail false, .runToRunning, .runSelStop, .runToStopping,
-   .runStopServer true, .runFinish, .rlConfig (.ok 0) true, .rlStopOld true, .rlBootBegin true, .rlProbeFail false]
+   .runStopServer true, .runFinish, .rlConfig (.ok 0) true, .rlAfterCb, .rlStopOld true, .rlBootBegin true, .rlProbeFail false]
 
 /-- **`Stop()` is never stuck** (C13, C14: "Run()/Stop() still terminate") — in every interleaving: in every reachable
 state in which a `Stop()` caller is waiting and `Run()` has not returned, the library can take a step: `Run` can move on,
@@ -139,9 +149,13 @@ theorem c13_stop_never_stuck {s : St} (h : Reach lts init s) (hstop : s.stopReq 
         cases hl : s.rl with
         | idle => exact absurd hl hrl
         | entered =>
-          refine ⟨.rlConfig (.ok 0) true, by simp [progressActs], ?_⟩
-          simp only [step, hl]
-          cases s.cfg.isSome <;> simp
+          exact ⟨.rlConfig (.ok 0) true, by simp [progressActs], by simp [step, hl]⟩
+        | cbReturned r b =>
+          refine ⟨.rlAfterCb, by simp [progressActs], ?_⟩
+          cases r <;> simp only [step, hl]
+          · split <;> simp
+          · simp
+          · simp
         | stopOld =>
           refine ⟨.rlStopOld true, by simp [progressActs], ?_⟩
           simp only [step, hl]
@@ -166,7 +180,7 @@ open GoSup.CompSeq (Fsm)
 def isLib : Act → Bool
   | .runEnter | .runBootBegin _ _ | .runProbeOk | .runProbeFail _ | .runToRunning | .runSelCtx | .runSelStop | .runSelErr
   | .runToStopping | .runStopServer _ | .runFinish
-  | .rlEnter | .rlConfig _ _ | .rlStopOld _ | .rlBootBegin _ | .rlProbeOk | .rlProbeFail _ => true
+  | .rlEnter | .rlConfig _ _ | .rlAfterCb | .rlStopOld _ | .rlBootBegin _ | .rlProbeOk | .rlProbeFail _ => true
   | _ => false
 
 def runRank : RunPc → Nat
@@ -174,7 +188,7 @@ def runRank : RunPc → Nat
   | .stopped _ => 2 | .returned _ => 0
 
 def rlRank : RlPc → Nat
-  | .idle => 0 | .entered => 4 | .stopOld => 3 | .toBoot => 2 | .probing => 1
+  | .idle => 0 | .entered => 5 | .cbReturned _ _ => 4 | .stopOld => 3 | .toBoot => 2 | .probing => 1
 
 /-- steps the library can still take: what is left of `Run`, of the reload under way, and of the reloads waiting -/
 def measure (s : St) : Nat := runRank s.run + rlRank s.rl + 6 * s.pendingRl
@@ -203,7 +217,7 @@ open GoSup.CompSeq (Fsm)
 theorem progressActs_lib : ∀ a ∈ progressActs, isLib a = true := by
   intro a ha
   simp only [progressActs, List.mem_cons, List.not_mem_nil, or_false] at ha
-  rcases ha with h | h | h | h | h | h | h | h | h | h | h | h <;> subst h <;> rfl
+  rcases ha with h | h | h | h | h | h | h | h | h | h | h | h | h <;> subst h <;> rfl
 
 theorem lib_keeps_stopReq (s : St) (a : Act) (s' : St) (hl : isLib a = true) (hs : step s a = some s') (h : s.stopReq = true) :
     s'.stopReq = true := by
